@@ -1,6 +1,9 @@
 import Mimium.Model.Migration
 import Mimium.Props.C08
 import Mimium.Props.C05
+import Mimium.Props.C06
+import Mimium.Proofs.LiveCodingVoice
+import Mimium.Proofs.LiveCodingVoices
 /-!
 # C07 — hot swap after an edit preserves the state of untouched signal paths
 
@@ -24,8 +27,19 @@ Lean model of the pinned diff (`carriesChild`) says whether this is finding F5 (
   (`FlatTree.treeRun`) and (b) — `C05_eval_respects_agreement` — the same returned values of the reference evaluator
   `Core.eval` on the voice's body, sample after sample, all run lengths (`FlatTree.instRun`), for every body whose stateful
   sites are covered by the voice's labelled layout.
-PARTIAL: the runtimes themselves are corresponded, not modelled; that the voice's published layout covers its body in the
-sense of `FlatTree.Covers` is the compiler's (mirgen's) job and is a hypothesis here (judged by C05's trace checker on the real VM).
+* WHOLE SESSIONS (second half of this file, namespace `Mimium.LiveCoding`; model `Model/LiveCoding.lean`: `session` = run, hot
+  swap, run … on the reference semantics, each swap = serialise under the published layout, migrate with the model of
+  `Machine::new_resume`, read back under the new published layout): `C07_swapState_carried_voice`,
+  `C07_session_untouched_voice_transplant` (any programs), `C07_session_fresh_voice` (new sites start from zero),
+  **`C07_session_untouched_voice`** (voice programs `let c_i = f_i(k_i); …; (c_a, c_b)`: after the swap every channel observing
+  an untouched, carried voice carries exactly the values the voice ALONE returns when continued from its pre-swap state),
+  `C07_session_untouched_voice_as_uninterrupted` (… which are the values of the old program's uninterrupted run),
+  `C07_voice_program_channel`, `C07_carriesChild_gives_carried_range`.
+PARTIAL: the runtimes themselves are corresponded (since this revision against the PREDICTED stream of `session`, sample by
+sample), not proved; the session theorems cover call-site voices (not the dsp-level `delay`/`mem` cells the generator wraps
+around a third of the voices, nor voices nested deeper by an edit); conformance of the reached state trees (ring lengths,
+`self` values of the declared shape — typing facts) and error-freedom of the voice's own run are hypotheses; `Covers` is
+discharged by C05's publish theorems where a program is given (`C07_session_*`), a hypothesis in `C07_carried_words_same_future`.
 -/
 namespace Mimium.Migration
 open Mimium.StateTree
@@ -156,3 +170,414 @@ example :
   exact ⟨hl, hc, canon_conforms _ _ hl hc, canon_conformsS _ _ hl hc⟩
 
 end Mimium.Migration
+
+/-! ## a whole session: the state of an untouched voice survives the swap (when the diff carries it)
+
+`Model/LiveCoding.lean`: `swapState old new st` = `deserialize` (layout published for `new.dsp`) of `vmResume` (published
+skeletons of `old.dsp`, `new.dsp`) of `serialize` (layout published for `old.dsp`) of `st`; `session` = run, swap, run ….
+A VOICE is a named call site of `dsp` (`let c_i = f_i(const_i)` in the generated programs; any position of a child cell in
+the published layout here).  It is UNTOUCHED by an edit when the new program publishes the same labelled layout
+`⟨self, cells⟩` for it (same callee, same callees of the callee), possibly at another site `sj` and at another offset. -/
+namespace Mimium.LiveCoding
+open Mimium.Core Mimium.StateTree Mimium.FlatTree Mimium.Publish Mimium.Migration
+
+/-- **`swapState` keeps the words of a carried voice.**  If the plan the runtimes apply for the two published skeletons
+carries the voice's word range (`carriesRange`, the test behind `carriesChild`), the hot swap of the old program in ANY
+conforming state `st` succeeds in the model, the new `dsp` tree is canonical for the new layout, and the voice's instance
+in it (child `sj`) has exactly the flat words the voice's instance (child `si`) had before the swap -/
+theorem C07_swapState_carried_voice (Pold Pnew : Prog) (lo ln : LNode) (preO postO preN postN : List LCell) (si sj : Nat)
+    (self : Option Shape) (cells : List LCell)
+    (hpo : publishFn Pold Pold.dsp = some lo) (hpn : publishFn Pnew Pnew.dsp = some ln)
+    (hs : SitesUnique Pnew) (hd : SitesOk Pnew.dsp.body)
+    (hco : lo.cells = preO ++ .child si self cells :: postO) (hcn : ln.cells = preN ++ .child sj self cells :: postN)
+    (st : SNode) (hconf : Conforms lo st)
+    (hcar : carriesRange (planPatches (publishedSk lo) (publishedSk ln)) (selfSize lo.self + sizeCells preO)
+      (selfSize ln.self + sizeCells preN) (LNode.size ⟨self, cells⟩) = true) :
+    ∃ st', swapState Pold Pnew st = some st' ∧ Canon ln st' ∧
+      serialize ⟨self, cells⟩ (st'.childAt sj) = serialize ⟨self, cells⟩ (st.childAt si) := by
+  have hln := C05_publish_ok Pnew.fns.length Pnew Pnew.dsp ln hs hd hpn
+  obtain ⟨ws, h1, _, h3, h4⟩ := swapWords_carried_child lo ln hln preO postO preN postN si sj self cells hco hcn st hconf hcar
+  exact ⟨deserialize ln ws, by simp [swapState, hpo, hpn, h1], h3, h4⟩
+
+/-- **a session with an edit: the untouched voice continues from exactly its pre-swap state.**
+The old program runs `n` samples (outputs `o1`, machine `m`), then the edit `Pnew` is swapped in.  Let a voice have the
+same labelled layout in both published layouts and let the plan carry its word range.  Then the session continues, for
+EVERY number `k` of further samples and every input stream, exactly like the NEW program started on the machine in which
+the voice's instance IS the tree it was in the old program just before the swap (`m.root.childAt si`, transplanted to
+site `sj`), everything else as migrated — all output channels, in particular the one observing the voice.
+(`Pnew` in the class of C05's evaluator theorems; `hconf`, `hvoice`: the old `dsp` state conforms to its layout, the
+voice's `self` values have their declared shapes — typing facts.)
+This form holds for ANY pair of programs (the new one in the class of C05's evaluator theorems); for voice programs
+`C07_session_untouched_voice` below turns the right-hand side into the voice's own uninterrupted stream. -/
+theorem C07_session_untouched_voice_transplant (fuel : Nat) (sr : UInt64) (Pold Pnew : Prog) (lo ln : LNode)
+    (preO postO preN postN : List LCell) (si sj : Nat) (self : Option Shape) (cells : List LCell)
+    (inputs : Nat → List UInt64) (n : Nat) (m0 mn m : Machine) (o1 : List (List UInt64))
+    (hpo : publishFn Pold Pold.dsp = some lo) (hpn : publishFn Pnew Pnew.dsp = some ln)
+    (harms : noStateInArms Pnew Pnew.dsp.body = true) (hs : SitesUnique Pnew) (hd : SitesOk Pnew.dsp.body)
+    (hco : lo.cells = preO ++ .child si self cells :: postO) (hcn : ln.cells = preN ++ .child sj self cells :: postN)
+    (hcar : carriesRange (planPatches (publishedSk lo) (publishedSk ln)) (selfSize lo.self + sizeCells preO)
+      (selfSize ln.self + sizeCells preN) (LNode.size ⟨self, cells⟩) = true)
+    (hinit : Machine.init fuel Pold sr = .ok m0) (hinitn : Machine.init fuel Pnew sr = .ok mn)
+    (hpre : prefixRun fuel Pold sr inputs n m0 = some (o1, m))
+    (hconf : Conforms lo m.root) (hvoice : ConformsS ⟨self, cells⟩ (m.root.childAt si)) :
+    ∃ st', swapState Pold Pnew m.root = some st' ∧
+      serialize ⟨self, cells⟩ (st'.childAt sj) = serialize ⟨self, cells⟩ (m.root.childAt si) ∧
+      ∀ k, session fuel sr Pold [(n, Pnew)] inputs (n + k) =
+        (runFrom fuel Pnew sr inputs k ⟨mn.store, st'.setCell sj (.child (m.root.childAt si)), n⟩).map (o1 ++ ·) := by
+  obtain ⟨st', hsw, hcanon, hw⟩ := C07_swapState_carried_voice Pold Pnew lo ln preO postO preN postN si sj self cells
+    hpo hpn hs hd hco hcn m.root hconf hcar
+  refine ⟨st', hsw, hw, fun k => ?_⟩
+  have hln := C05_publish_ok Pnew.fns.length Pnew Pnew.dsp ln hs hd hpn
+  obtain ⟨hself, _, hcov⟩ := C05_publishFn_visits Pnew.fns.length Pnew Pnew.dsp ln harms hpn
+  have htm : m.t = n := by
+    rw [prefixRun_t fuel Pold sr inputs n m0 o1 m hpre, (init_t fuel Pold sr m0 hinit).1]; omega
+  cases k with
+  | zero =>
+    have := sessionFrom_prefix fuel sr [(n, Pnew)] inputs Pold 0 n m0 (by simp [(init_t fuel Pold sr m0 hinit).1])
+    simp only [session, hinit, this, hpre, sessionFrom, runFrom, Option.map_some, List.append_nil]
+  | succ k =>
+    rw [session_one_swap fuel sr Pold Pnew inputs n k m0 hinit o1 m hpre]
+    have hso : swapOne fuel sr Pold m Pnew = some (Pnew, ⟨mn.store, st', m.t⟩) := by
+      simp [swapOne, hpn, hsw, hinitn]
+    simp only [hso, sessionFrom_nil, htm]
+    congr 1
+    refine C06_agreeing_machines_same_future fuel Pnew sr inputs ln hln hself.symm hcov (k + 1) _ _ ⟨rfl, rfl, ?_⟩
+    exact agree_transplant ln hln preN postN sj self cells hcn st' _ (canon_conformsS ln st' hln hcanon) hvoice hw
+
+/-- **a session with an edit: a new voice starts from zero.**  If no patch of the plan touches the word range of the child
+cell `sj` of the new layout (the executable test `childReceives` of the judge is false), the session continues, for every
+number of further samples, exactly like the new program started on the machine in which that call site has NEVER been
+evaluated (`SNode.empty`: `self`, `mem`, `delay` contents zero), everything else as migrated -/
+theorem C07_session_fresh_voice (fuel : Nat) (sr : UInt64) (Pold Pnew : Prog) (lo ln : LNode)
+    (preN postN : List LCell) (sj : Nat) (self : Option Shape) (cells : List LCell)
+    (inputs : Nat → List UInt64) (n : Nat) (m0 mn m : Machine) (o1 : List (List UInt64))
+    (hpo : publishFn Pold Pold.dsp = some lo) (hpn : publishFn Pnew Pnew.dsp = some ln)
+    (harms : noStateInArms Pnew Pnew.dsp.body = true) (hs : SitesUnique Pnew) (hd : SitesOk Pnew.dsp.body)
+    (hcn : ln.cells = preN ++ .child sj self cells :: postN)
+    (hnone : ∀ p ∈ planPatches (publishedSk lo) (publishedSk ln), ∀ k, k < LNode.size ⟨self, cells⟩ →
+      ¬ p.covers (selfSize ln.self + sizeCells preN + k))
+    (hinit : Machine.init fuel Pold sr = .ok m0) (hinitn : Machine.init fuel Pnew sr = .ok mn)
+    (hpre : prefixRun fuel Pold sr inputs n m0 = some (o1, m))
+    (hconf : Conforms lo m.root) :
+    ∃ st', swapState Pold Pnew m.root = some st' ∧
+      serialize ⟨self, cells⟩ (st'.childAt sj) = List.replicate (LNode.size ⟨self, cells⟩) 0 ∧
+      ∀ k, session fuel sr Pold [(n, Pnew)] inputs (n + k) =
+        (runFrom fuel Pnew sr inputs k ⟨mn.store, st'.setCell sj (.child SNode.empty), n⟩).map (o1 ++ ·) := by
+  have hln := C05_publish_ok Pnew.fns.length Pnew Pnew.dsp ln hs hd hpn
+  obtain ⟨ws, h1, _, hcanon, hw⟩ := swapWords_fresh_child lo ln hln preN postN sj self cells hcn m.root hconf hnone
+  have hsw : swapState Pold Pnew m.root = some (deserialize ln ws) := by simp [swapState, hpo, hpn, h1]
+  refine ⟨deserialize ln ws, hsw, by rw [hw, serialize_empty], fun k => ?_⟩
+  obtain ⟨hself, _, hcov⟩ := C05_publishFn_visits Pnew.fns.length Pnew Pnew.dsp ln harms hpn
+  have htm : m.t = n := by
+    rw [prefixRun_t fuel Pold sr inputs n m0 o1 m hpre, (init_t fuel Pold sr m0 hinit).1]; omega
+  have hlc : LayOk (.child sj self cells) := layOk_of_mem ln.cells _ hln (by rw [hcn]; simp)
+  have hempty : ConformsS ⟨self, cells⟩ SNode.empty := by
+    have := confS_empty _ hlc
+    simpa [ConfS, childAt_empty', ConformsS] using this
+  cases k with
+  | zero =>
+    have := sessionFrom_prefix fuel sr [(n, Pnew)] inputs Pold 0 n m0 (by simp [(init_t fuel Pold sr m0 hinit).1])
+    simp only [session, hinit, this, hpre, sessionFrom, runFrom, Option.map_some, List.append_nil]
+  | succ k =>
+    rw [session_one_swap fuel sr Pold Pnew inputs n k m0 hinit o1 m hpre]
+    have hso : swapOne fuel sr Pold m Pnew = some (Pnew, ⟨mn.store, deserialize ln ws, m.t⟩) := by
+      simp [swapOne, hpn, hsw, hinitn]
+    simp only [hso, sessionFrom_nil, htm]
+    congr 1
+    refine C06_agreeing_machines_same_future fuel Pnew sr inputs ln hln hself.symm hcov (k + 1) _ _ ⟨rfl, rfl, ?_⟩
+    exact agree_transplant ln hln preN postN sj self cells hcn _ _ (canon_conformsS ln _ hln hcanon) hempty hw
+
+/-! ### voice programs: the channel of an untouched voice IS the voice's own uninterrupted stream
+
+`dsp() = let c_1 = f_1(k_1); …; let c_m = f_m(k_m); (c_a, c_b, …)` (`voicesBody`), no globals, first-order single-assignment
+functions (`SimpleProg`) — the programs of the generator.  `P₀` is any program that contains the voice's function (and what
+it calls) and is contained in the running program (`SubProg`), e.g. `fn dsp(){ f(k) }` — the oracle of the check;
+`instRun fuel₀ P₀ … (voiceSamples d k sr t n) st` = the values the voice alone returns, sample after sample, from state `st`. -/
+
+/-- **the stream of a voice program, channel by channel** (any voice program, no swap): if the voice alone runs without
+error for `k` samples from its current child node, every channel of the program that observes the voice carries exactly the
+values of that alone run, and every output row is the flattened tuple of the observed values -/
+theorem C07_voice_program_channel (P P₀ : Prog) (hP : SimpleProg P) (hP₀ : SimpleProg P₀) (hsub : SubProg P₀ P)
+    (pre post : List Voice) (v : Voice) (obs : List String)
+    (hname : v.name ∉ post.map (·.name)) (hs1 : v.site ∉ pre.map (·.site)) (hs2 : v.site ∉ post.map (·.site))
+    (d : FnDecl) (hd : findFn P₀.fns v.f = some d) (fuel fuel₀ : Nat) (hn : fuel₀ + pre.length + 3 ≤ fuel)
+    (sr : UInt64) (inputs : Nat → List UInt64)
+    (hpar : P.dsp.params = []) (hself : P.dsp.selfShape = none)
+    (hbody : P.dsp.body = voicesBody (pre ++ v :: post) (.tup (obs.map .var)))
+    (k : Nat) (root : SNode) (t : Nat) (rows : List (List UInt64))
+    (hrun : runFrom fuel P sr inputs k ⟨[], root, t⟩ = some rows)
+    (hok : ∀ o ∈ instRun fuel₀ P₀ d.selfShape d.body (voiceSamples d v.c sr t k) (root.childAt v.site), o ≠ none) :
+    ∃ valss : List (List Val), rows = valss.map flattenVals ∧
+      ∀ (i : Nat), obs[i]? = some v.name →
+        valss.map (fun vals => vals[i]?) =
+          instRun fuel₀ P₀ d.selfShape d.body (voiceSamples d v.c sr t k) (root.childAt v.site) := by
+  rw [← sessionFrom_nil] at hrun
+  exact voice_run P P₀ hP hP₀ hsub pre post v obs hname hs1 hs2 d hd fuel fuel₀ hn sr inputs hpar hself hbody k root t rows
+    hrun hok
+
+/-- **hot swap after an edit preserves the state of an untouched voice — for voice programs.**  The old program (any
+program with a published layout) runs `n` samples (outputs `o1`, machine `m`); the edit `Pnew`, a voice program, is swapped
+in.  Let the voice `v` of `Pnew` (function `d`, constant `v.c`, site `v.site`) have the labelled layout `⟨self, cells⟩`
+published for `d`, let the old layout hold a child with the same labelled layout at site `si` (the voice before the edit,
+at whatever position), and let the plan the runtimes apply carry that child's word range to the voice's new position.
+Then, for every number `k` of further samples: if the voice ALONE (program `P₀`), continued from the state it had in the old
+program just before the swap (`m.root.childAt si`) and fed the constant of the new program, runs without error, every
+output row of the session after the swap is the flattened tuple of the observed values and EVERY CHANNEL THAT OBSERVES THE
+VOICE CARRIES EXACTLY THE VALUES OF THAT UNINTERRUPTED RUN OF THE VOICE.
+(`hconf`, `hvoice`: the old `dsp` tree conforms to its layout, the voice's `self` values have their declared shape — typing
+facts; `hpub₀ … hd₀`: the voice's function is in the class of C05's theorems.) -/
+theorem C07_session_untouched_voice (fuel fuel₀ : Nat) (sr : UInt64) (Pold Pnew P₀ : Prog) (lo ln : LNode)
+    (preO postO preN postN : List LCell) (si : Nat) (self : Option Shape) (cells : List LCell)
+    (pre post : List Voice) (v : Voice) (obs : List String) (d : FnDecl) (n₀ : Nat)
+    (inputs : Nat → List UInt64) (n : Nat) (m0 mn m : Machine) (o1 : List (List UInt64))
+    -- the new program is a voice program, `P₀` holds the voice's function
+    (hP : SimpleProg Pnew) (hP₀ : SimpleProg P₀) (hsub : SubProg P₀ Pnew)
+    (hname : v.name ∉ post.map (·.name)) (hs1 : v.site ∉ pre.map (·.site)) (hs2 : v.site ∉ post.map (·.site))
+    (hd : findFn P₀.fns v.f = some d) (hn : fuel₀ + pre.length + 3 ≤ fuel)
+    (hpar : Pnew.dsp.params = []) (hself : Pnew.dsp.selfShape = none)
+    (hbody : Pnew.dsp.body = voicesBody (pre ++ v :: post) (.tup (obs.map .var)))
+    -- the layouts
+    (hpo : publishFn Pold Pold.dsp = some lo) (hpn : publishFn Pnew Pnew.dsp = some ln)
+    (hs : SitesUnique Pnew) (hds : SitesOk Pnew.dsp.body)
+    (hco : lo.cells = preO ++ .child si self cells :: postO) (hcn : ln.cells = preN ++ .child v.site self cells :: postN)
+    (hpub₀ : publishFnN n₀ P₀ d = some ⟨self, cells⟩) (harms₀ : noStateInArmsN n₀ P₀ d.body = true)
+    (hs₀ : SitesUnique P₀) (hd₀ : SitesOk d.body)
+    -- the plan carries the voice
+    (hcar : carriesRange (planPatches (publishedSk lo) (publishedSk ln)) (selfSize lo.self + sizeCells preO)
+      (selfSize ln.self + sizeCells preN) (LNode.size ⟨self, cells⟩) = true)
+    -- the run up to the swap
+    (hinit : Machine.init fuel Pold sr = .ok m0) (hinitn : Machine.init fuel Pnew sr = .ok mn)
+    (hpre : prefixRun fuel Pold sr inputs n m0 = some (o1, m))
+    (hconf : Conforms lo m.root) (hvoice : ConformsS ⟨self, cells⟩ (m.root.childAt si))
+    (k : Nat) (rows : List (List UInt64))
+    (hrun : session fuel sr Pold [(n, Pnew)] inputs (n + k) = some rows)
+    (hok : ∀ o ∈ instRun fuel₀ P₀ d.selfShape d.body (voiceSamples d v.c sr n k) (m.root.childAt si), o ≠ none) :
+    ∃ valss : List (List Val), rows = o1 ++ valss.map flattenVals ∧
+      ∀ (i : Nat), obs[i]? = some v.name →
+        valss.map (fun vals => vals[i]?) =
+          instRun fuel₀ P₀ d.selfShape d.body (voiceSamples d v.c sr n k) (m.root.childAt si) := by
+  obtain ⟨st', hsw, hcanon, hw⟩ := C07_swapState_carried_voice Pold Pnew lo ln preO postO preN postN si v.site self cells
+    hpo hpn hs hds hco hcn m.root hconf hcar
+  have hln := C05_publish_ok Pnew.fns.length Pnew Pnew.dsp ln hs hds hpn
+  have htm : m.t = n := by
+    rw [prefixRun_t fuel Pold sr inputs n m0 o1 m hpre, (init_t fuel Pold sr m0 hinit).1]; omega
+  have hstore : mn.store = [] := (init_store_nil fuel Pnew sr hP.1 mn hinitn).1
+  -- the voice alone cannot tell the migrated child from the old one
+  have hchild : ConformsS ⟨self, cells⟩ (st'.childAt v.site) :=
+    conformsS_child ln preN postN v.site self cells hcn st' (canon_conformsS ln st' hln hcanon)
+  have heq : ∀ samples, instRun fuel₀ P₀ d.selfShape d.body samples (st'.childAt v.site) =
+      instRun fuel₀ P₀ d.selfShape d.body samples (m.root.childAt si) := fun samples =>
+    C05_published_same_words_same_eval_future fuel₀ n₀ P₀ d ⟨self, cells⟩ samples _ _ hpub₀ harms₀ hs₀ hd₀ hchild hvoice hw
+  cases k with
+  | zero =>
+    have := sessionFrom_prefix fuel sr [(n, Pnew)] inputs Pold 0 n m0 (by simp [(init_t fuel Pold sr m0 hinit).1])
+    simp only [session, hinit] at hrun
+    rw [this, hpre] at hrun
+    simp only [sessionFrom, Option.map_some, List.append_nil, Option.some.injEq] at hrun
+    subst hrun
+    exact ⟨[], by simp, fun i _ => by simp [voiceSamples, instRun]⟩
+  | succ k =>
+    rw [session_one_swap fuel sr Pold Pnew inputs n k m0 hinit o1 m hpre] at hrun
+    have hso : swapOne fuel sr Pold m Pnew = some (Pnew, ⟨[], st', n⟩) := by
+      simp [swapOne, hpn, hsw, hinitn, hstore, htm]
+    simp only [hso] at hrun
+    cases hr : sessionFrom fuel sr [] inputs (k + 1) Pnew ⟨[], st', n⟩ with
+    | none => simp [hr] at hrun
+    | some rows' =>
+      simp only [hr, Option.map_some, Option.some.injEq] at hrun
+      subst hrun
+      obtain ⟨valss, e1, e2⟩ := voice_run Pnew P₀ hP hP₀ hsub pre post v obs hname hs1 hs2 d hd fuel fuel₀ hn sr inputs hpar
+        hself hbody (k + 1) st' n rows' hr (by rw [heq]; exact hok)
+      exact ⟨valss, by rw [e1], fun i hi => by rw [e2 i hi, heq]⟩
+
+/-- **… exactly as in an uninterrupted run.**  If the OLD program is a voice program too, in which the same voice (same
+function, same constant) sits at site `si`, then — under the hypotheses of `C07_session_untouched_voice` — the channels of
+the session after the swap that observe the voice carry, sample for sample, the values the channels observing it carry in
+the UNINTERRUPTED run of the old program from the swap point on (whenever that run and the voice's own run succeed) -/
+theorem C07_session_untouched_voice_as_uninterrupted (fuel fuel₀ : Nat) (sr : UInt64) (Pold Pnew P₀ : Prog) (lo ln : LNode)
+    (preO postO preN postN : List LCell) (self : Option Shape) (cells : List LCell)
+    (pre post preV postV : List Voice) (v vo : Voice) (obs obsO : List String) (d : FnDecl) (n₀ : Nat)
+    (inputs : Nat → List UInt64) (n : Nat) (m0 mn m : Machine) (o1 : List (List UInt64))
+    (hP : SimpleProg Pnew) (hP₀ : SimpleProg P₀) (hsub : SubProg P₀ Pnew)
+    (hname : v.name ∉ post.map (·.name)) (hs1 : v.site ∉ pre.map (·.site)) (hs2 : v.site ∉ post.map (·.site))
+    (hd : findFn P₀.fns v.f = some d) (hn : fuel₀ + pre.length + 3 ≤ fuel)
+    (hpar : Pnew.dsp.params = []) (hself : Pnew.dsp.selfShape = none)
+    (hbody : Pnew.dsp.body = voicesBody (pre ++ v :: post) (.tup (obs.map .var)))
+    -- the old program is a voice program with the same voice
+    (hPo : SimpleProg Pold) (hsubo : SubProg P₀ Pold) (hf : vo.f = v.f) (hc : vo.c = v.c)
+    (hnameo : vo.name ∉ postV.map (·.name)) (hs1o : vo.site ∉ preV.map (·.site)) (hs2o : vo.site ∉ postV.map (·.site))
+    (hno : fuel₀ + preV.length + 3 ≤ fuel)
+    (hparo : Pold.dsp.params = []) (hselfo : Pold.dsp.selfShape = none)
+    (hbodyo : Pold.dsp.body = voicesBody (preV ++ vo :: postV) (.tup (obsO.map .var)))
+    (hpo : publishFn Pold Pold.dsp = some lo) (hpn : publishFn Pnew Pnew.dsp = some ln)
+    (hs : SitesUnique Pnew) (hds : SitesOk Pnew.dsp.body)
+    (hco : lo.cells = preO ++ .child vo.site self cells :: postO)
+    (hcn : ln.cells = preN ++ .child v.site self cells :: postN)
+    (hpub₀ : publishFnN n₀ P₀ d = some ⟨self, cells⟩) (harms₀ : noStateInArmsN n₀ P₀ d.body = true)
+    (hs₀ : SitesUnique P₀) (hd₀ : SitesOk d.body)
+    (hcar : carriesRange (planPatches (publishedSk lo) (publishedSk ln)) (selfSize lo.self + sizeCells preO)
+      (selfSize ln.self + sizeCells preN) (LNode.size ⟨self, cells⟩) = true)
+    (hinit : Machine.init fuel Pold sr = .ok m0) (hinitn : Machine.init fuel Pnew sr = .ok mn)
+    (hpre : prefixRun fuel Pold sr inputs n m0 = some (o1, m))
+    (hconf : Conforms lo m.root) (hvoice : ConformsS ⟨self, cells⟩ (m.root.childAt vo.site))
+    (k : Nat) (rows rowsU : List (List UInt64))
+    (hrun : session fuel sr Pold [(n, Pnew)] inputs (n + k) = some rows)
+    (hrunU : runFrom fuel Pold sr inputs k m = some rowsU)
+    (hok : ∀ o ∈ instRun fuel₀ P₀ d.selfShape d.body (voiceSamples d v.c sr n k) (m.root.childAt vo.site), o ≠ none) :
+    ∃ valss valssU : List (List Val), rows = o1 ++ valss.map flattenVals ∧ rowsU = valssU.map flattenVals ∧
+      ∀ (a b : Nat), obsO[a]? = some vo.name → obs[b]? = some v.name →
+        valss.map (fun vals => vals[b]?) = valssU.map (fun vals => vals[a]?) := by
+  obtain ⟨valss, e1, e2⟩ := C07_session_untouched_voice fuel fuel₀ sr Pold Pnew P₀ lo ln preO postO preN postN vo.site self
+    cells pre post v obs d n₀ inputs n m0 mn m o1 hP hP₀ hsub hname hs1 hs2 hd hn hpar hself hbody hpo hpn hs hds hco hcn
+    hpub₀ harms₀ hs₀ hd₀ hcar hinit hinitn hpre hconf hvoice k rows hrun hok
+  have hmstore : m.store = [] :=
+    prefixRun_store_nil fuel Pold sr inputs n m0 o1 m (init_store_nil fuel Pold sr hPo.1 m0 hinit).1 hpre
+  have htm : m.t = n := by
+    rw [prefixRun_t fuel Pold sr inputs n m0 o1 m hpre, (init_t fuel Pold sr m0 hinit).1]; omega
+  have hm : m = ⟨[], m.root, n⟩ := by cases m; simp_all
+  rw [hm] at hrunU
+  obtain ⟨valssU, u1, u2⟩ := C07_voice_program_channel Pold P₀ hPo hP₀ hsubo preV postV vo obsO hnameo hs1o hs2o d
+    (by rw [hf]; exact hd) fuel fuel₀ hno sr inputs hparo hselfo hbodyo k m.root n rowsU hrunU (by rw [hc]; exact hok)
+  refine ⟨valss, valssU, e1, u1, fun a b ha hb => ?_⟩
+  rw [e2 b hb, u2 a ha, hc]
+
+/-! non-vacuity of `C07_session_untouched_voice`, all hypotheses at once and with a run that does happen: `cnt(x) = self + x`,
+`lag(x) = mem(x)`; old program `let c1 = cnt(1); (c1, c1)` runs ONE sample (`cnt` holds `w = 0 + 1`), then the edit
+`let c2 = lag(2); let c1 = cnt(1); (c2, c1)` is swapped in and runs two samples: the session exists, and channel 1 carries
+the values `cnt` alone returns when continued from the child node that holds `w` (the reference evaluator computes with
+opaque `Float`s: the sums stay symbolic, everything structural is evaluated by the kernel) -/
+example (inputs : Nat → List UInt64) :
+    let cntF : FnDecl := ⟨"cnt", ["x"], .bin .add .self (.var "x"), some .num⟩
+    let lagF : FnDecl := ⟨"lag", ["x"], .mem (.var "x") 1, none⟩
+    let Pold : Prog := ⟨[], [cntF, lagF], ⟨"dsp", [], .letE "c1" (.call "cnt" [.lit 1] 1) (.tup [.var "c1", .var "c1"]), none⟩⟩
+    let Pnew : Prog := ⟨[], [cntF, lagF], ⟨"dsp", [],
+      voicesBody ([⟨"c2", "lag", 2, 2⟩] ++ ⟨"c1", "cnt", 1, 1⟩ :: []) (.tup (["c2", "c1"].map .var)), none⟩⟩
+    let P₀ : Prog := ⟨[], [cntF, lagF], ⟨"dsp", [], .lit 0, none⟩⟩
+    let w := evalBin .add 0 1
+    let m : Machine := ⟨[], .mk none [(1, .child (.mk (some (.num w)) []))], 1⟩
+    ∃ (rows : List (List UInt64)) (valss : List (List Val)), session 20 0 Pold [(1, Pnew)] inputs (1 + 2) = some rows ∧ rows = [[w, w]] ++ valss.map flattenVals ∧
+      ∀ (i : Nat), ["c2", "c1"][i]? = some "c1" → valss.map (fun vals => vals[i]?) =
+        instRun 10 P₀ cntF.selfShape cntF.body (voiceSamples cntF 1 0 1 2) (m.root.childAt 1) := by
+  intro cntF lagF Pold Pnew P₀ w m
+  have hsome : (session 20 0 Pold [(1, Pnew)] inputs (1 + 2)).isSome = true := by rfl
+  obtain ⟨rows, hrows⟩ := Option.isSome_iff_exists.1 hsome
+  have hsu : SitesUnique Pnew := by
+    intro d hd
+    simp only [Pnew, List.mem_cons, List.not_mem_nil, or_false] at hd
+    rcases hd with rfl | rfl <;> simp [SitesOk, siteLens, cntF, lagF]
+  have hsu₀ : SitesUnique P₀ := hsu
+  have hch : m.root.childAt 1 = .mk (some (.num w)) [] := rfl
+  have hvoice : ConformsS ⟨some .num, []⟩ (m.root.childAt 1) := by
+    rw [hch]
+    refine ⟨?_, by simp [ConfSL]⟩
+    intro v hv
+    simp only [SNode.selfv, Option.some.injEq] at hv
+    subst hv; simp [HasShape]
+  have hconf : Conforms ⟨none, [.child 1 (some .num) []]⟩ m.root := by
+    refine ⟨?_, ?_⟩
+    · intro v hv; simp [m, SNode.selfv] at hv
+    · simp only [ConfL, Conf, hch, and_true]
+      intro v hv
+      simp only [SNode.selfv, Option.some.injEq] at hv
+      subst hv; simp [flattenVal, selfSize, shapeSize]
+  obtain ⟨valss, h1, h2⟩ := C07_session_untouched_voice 20 10 0 Pold Pnew P₀
+    ⟨none, [.child 1 (some .num) []]⟩ ⟨none, [.child 2 none [.mem 1], .child 1 (some .num) []]⟩
+    [] [] [.child 2 none [.mem 1]] [] 1 (some .num) [] [⟨"c2", "lag", 2, 2⟩] [] ⟨"c1", "cnt", 1, 1⟩ ["c2", "c1"] cntF 0
+    inputs 1 ⟨[], SNode.empty, 0⟩ ⟨[], SNode.empty, 0⟩ m [[w, w]]
+    ⟨rfl, by intro d hd; simp only [Pnew, List.mem_cons, List.not_mem_nil, or_false] at hd; rcases hd with rfl | rfl <;> rfl⟩
+    ⟨rfl, by intro d hd; simp only [P₀, List.mem_cons, List.not_mem_nil, or_false] at hd; rcases hd with rfl | rfl <;> rfl⟩
+    (fun _ _ h => h) (by simp) (by simp) (by simp) rfl (by decide) rfl rfl rfl rfl rfl hsu
+    (by simp [SitesOk, siteLens, siteLensL, Pnew, voicesBody]) rfl rfl rfl rfl hsu₀
+    (by simp [SitesOk, siteLens, cntF]) (by decide +kernel) rfl rfl rfl
+    hconf hvoice
+    2 rows hrows
+    (by
+      have : (instRun 10 P₀ cntF.selfShape cntF.body (voiceSamples cntF 1 0 1 2) (m.root.childAt 1)).all (·.isSome) = true := by rfl
+      intro o ho hn
+      have := List.all_eq_true.1 this o ho
+      simp [hn] at this)
+  exact ⟨rows, valss, hrows, h1, h2⟩
+
+/-! non-vacuity of `C07_voice_program_channel`: the same voice program from the start, two samples -/
+example (inputs : Nat → List UInt64) :
+    let cntF : FnDecl := ⟨"cnt", ["x"], .bin .add .self (.var "x"), some .num⟩
+    let lagF : FnDecl := ⟨"lag", ["x"], .mem (.var "x") 1, none⟩
+    let P : Prog := ⟨[], [cntF, lagF], ⟨"dsp", [],
+      voicesBody ([⟨"c2", "lag", 2, 2⟩] ++ ⟨"c1", "cnt", 1, 1⟩ :: []) (.tup (["c2", "c1"].map .var)), none⟩⟩
+    ∃ (rows : List (List UInt64)) (valss : List (List Val)),
+      runFrom 20 P 0 inputs 2 ⟨[], SNode.empty, 0⟩ = some rows ∧ rows = valss.map flattenVals ∧
+      ∀ (i : Nat), ["c2", "c1"][i]? = some "c1" → valss.map (fun vals => vals[i]?) =
+        instRun 10 P cntF.selfShape cntF.body (voiceSamples cntF 1 0 0 2) (SNode.empty.childAt 1) := by
+  intro cntF lagF P
+  have hsome : (runFrom 20 P 0 inputs 2 ⟨[], SNode.empty, 0⟩).isSome = true := by rfl
+  obtain ⟨rows, hrows⟩ := Option.isSome_iff_exists.1 hsome
+  have hsp : SimpleProg P :=
+    ⟨rfl, by intro d hd; simp only [P, List.mem_cons, List.not_mem_nil, or_false] at hd; rcases hd with rfl | rfl <;> rfl⟩
+  obtain ⟨valss, h1, h2⟩ := C07_voice_program_channel P P hsp hsp (fun _ _ h => h) [⟨"c2", "lag", 2, 2⟩] []
+    ⟨"c1", "cnt", 1, 1⟩ ["c2", "c1"] (by simp) (by simp) (by simp) cntF rfl 20 10 (by decide) 0 inputs rfl rfl rfl 2
+    SNode.empty 0 rows hrows
+    (by
+      have : (instRun 10 P cntF.selfShape cntF.body (voiceSamples cntF 1 0 0 2) (SNode.empty.childAt 1)).all (·.isSome) = true := by
+        rfl
+      intro o ho hn
+      have := List.all_eq_true.1 this o ho
+      simp [hn] at this)
+  exact ⟨rows, valss, hrows, h1, h2⟩
+
+/-- the judge's test `carriesChild` (child INDICES of the published skeletons) gives the hypothesis `carriesRange` (word
+OFFSETS of the labelled layouts) of the two theorems above, when no child of `dsp` is pruned from the skeletons (every call
+site of `dsp` is a function with state, as the voices are): the voice is child `|feed| + |cells before it|` and its offset
+is `selfSize + sizeCells (cells before it)` -/
+theorem C07_carriesChild_gives_carried_range (lo ln : LNode) (preO postO preN postN : List LCell) (si sj : Nat)
+    (self : Option Shape) (cells : List LCell)
+    (hco : lo.cells = preO ++ .child si self cells :: postO) (hcn : ln.cells = preN ++ .child sj self cells :: postN)
+    (hpo : publishedSk lo = lo.sk) (hpn : publishedSk ln = ln.sk)
+    (h : carriesChild (publishedSk lo) (publishedSk ln) ((feedOf lo.self).length + preO.length)
+      ((feedOf ln.self).length + preN.length) = true) :
+    carriesRange (planPatches (publishedSk lo) (publishedSk ln)) (selfSize lo.self + sizeCells preO)
+      (selfSize ln.self + sizeCells preN) (LNode.size ⟨self, cells⟩) = true := by
+  have := (carriesRange_of_carriesChild lo ln preO postO preN postN _ _ hco hcn hpo hpn h).2
+  simpa [LCell.size, LNode.size] using this
+
+/-! non-vacuity of the two theorems above (all hypotheses at once): `cnt(x) = self + x`, `lag(x) = mem(x)`; the old program
+is `let c1 = cnt(1); (c1, c1)`, the edit inserts a voice in front: `let c2 = lag(2); let c1 = cnt(1); (c2, c1)`.  The
+published skeletons are `F[F[E1]]` and `F[F[M1],F[E1]]`, the plan carries the word of `cnt` from offset 0 to offset 1; the
+swap happens before the first sample (the reference evaluator computes with opaque `Float`s, so no step is unfolded here) -/
+example (fuel : Nat) (sr : UInt64) (inputs : Nat → List UInt64) :
+    let cntF : FnDecl := ⟨"cnt", ["x"], .bin .add .self (.var "x"), some .num⟩
+    let lagF : FnDecl := ⟨"lag", ["x"], .mem (.var "x") 1, none⟩
+    let Pold : Prog := ⟨[], [cntF, lagF], ⟨"dsp", [], .letE "c1" (.call "cnt" [.lit 1] 1) (.tup [.var "c1", .var "c1"]), none⟩⟩
+    let Pnew : Prog := ⟨[], [cntF, lagF], ⟨"dsp", [],
+      .letE "c2" (.call "lag" [.lit 2] 2) (.letE "c1" (.call "cnt" [.lit 1] 1) (.tup [.var "c2", .var "c1"])), none⟩⟩
+    let lo : LNode := ⟨none, [.child 1 (some .num) []]⟩
+    let ln : LNode := ⟨none, [.child 2 none [.mem 1], .child 1 (some .num) []]⟩
+    let m0 : Machine := ⟨[], SNode.empty, 0⟩
+    publishFn Pold Pold.dsp = some lo ∧ publishFn Pnew Pnew.dsp = some ln ∧
+    noStateInArms Pnew Pnew.dsp.body = true ∧ SitesUnique Pnew ∧ SitesOk Pnew.dsp.body ∧
+    lo.cells = [] ++ .child 1 (some .num) [] :: [] ∧ ln.cells = [.child 2 none [.mem 1]] ++ .child 1 (some .num) [] :: [] ∧
+    carriesRange (planPatches (publishedSk lo) (publishedSk ln)) (selfSize lo.self + sizeCells [])
+      (selfSize ln.self + sizeCells [.child 2 none [.mem 1]]) (LNode.size ⟨some .num, []⟩) = true ∧
+    Machine.init fuel Pold sr = .ok m0 ∧ Machine.init fuel Pnew sr = .ok m0 ∧
+    prefixRun fuel Pold sr inputs 0 m0 = some ([], m0) ∧
+    Conforms lo m0.root ∧ ConformsS ⟨some .num, []⟩ (m0.root.childAt 1) ∧
+    publishedSk lo = lo.sk ∧ publishedSk ln = ln.sk ∧
+    carriesChild (publishedSk lo) (publishedSk ln) ((feedOf lo.self).length + 0) ((feedOf ln.self).length + 1) = true ∧
+    -- `C07_session_fresh_voice`: the inserted voice `lag` (child 2, offset 0, one word) receives nothing
+    ln.cells = [] ++ .child 2 none [.mem 1] :: [.child 1 (some .num) []] ∧
+    (∀ p ∈ planPatches (publishedSk lo) (publishedSk ln), ∀ k, k < LNode.size ⟨none, [.mem 1]⟩ →
+      ¬ p.covers (selfSize ln.self + sizeCells [] + k)) := by
+  intro cntF lagF Pold Pnew lo ln m0
+  refine ⟨rfl, rfl, rfl, ?_, ?_, rfl, rfl, by decide +kernel, rfl, rfl, rfl, ?_, ?_, rfl, rfl, by decide +kernel, rfl,
+    by decide +kernel⟩
+  · intro d hd
+    simp only [Pnew, List.mem_cons, List.not_mem_nil, or_false] at hd
+    rcases hd with rfl | rfl <;> simp [SitesOk, siteLens, cntF, lagF]
+  · simp [SitesOk, siteLens, siteLensL, Pnew]
+  · refine ⟨?_, ?_⟩
+    · intro v hv; simp [m0, SNode.empty, SNode.selfv] at hv
+    · simp [lo, ConfL, Conf, SelfOk, m0, SNode.empty, SNode.childAt, SNode.cells, SNode.selfv, lookupCell]
+  · refine ⟨?_, ?_⟩
+    · simp [SelfOkS, m0, SNode.empty, SNode.childAt, SNode.cells, SNode.selfv, lookupCell]
+    · simp [ConfSL]
+
+end Mimium.LiveCoding
